@@ -108,6 +108,11 @@ class C07(HistoryProfile):
   p_undo = 0.04
   p_redo_after_undo = 0.5
 
+  def base_weights(self):
+    w = dict(gen.DEFAULT_WEIGHTS)
+    w.update({"error_trigger": 2, "trigger_column": 2})
+    return w
+
   def config(self, rng, tier):
     cfg = super(C07, self).config(rng, tier)
     cfg["p_restart"] = self.p_restart * rng.choice([0.5, 1, 2])
@@ -125,6 +130,25 @@ class C07(HistoryProfile):
     d = eq.diff(out.extra["old_sigma"], out.post)
     if d:
       raise vio(sim, "reopen-state", "reopened engine reports different data: " + "; ".join(d[:4]))
+    # Error values *stored* in data columns (raised by trigger formulas) are data like any other:
+    # they come back exactly, with their message and the record of what the cell held before
+    # (everything but the traceback text). eq.diff above compares error cells by class only.
+    old, new = out.extra["old_sigma"], out.post
+    dv = DocView(new)
+    for t in dv.user_tables(include_summary=True):
+      if t.tableId not in old:
+        continue
+      for c in t.cols.values():
+        if c.isFormula or c.colId not in new[t.tableId][3] or c.colId not in old[t.tableId][3]:
+          continue
+        before = dict(zip(old[t.tableId][2], old[t.tableId][3][c.colId]))
+        for r, v in zip(new[t.tableId][2], new[t.tableId][3][c.colId]):
+          b = before.get(r)
+          if isinstance(b, list) and b and b[0] == "E":
+            sim.count("probe.stored_error_cells_compared")
+            if not (isinstance(v, list) and [b[:3], b[4:]] == [v[:3], v[4:]]):
+              raise vio(sim, "reopen-state", "stored error value %s[%s].%s came back as %r, was %r" % (
+                t.tableId, r, c.colId, v, b))
     sim.count("oracle.reopen")
     sim.count("oracle.nontrivial")
     sim.shapes.add("%s/restart" % self.shape(sim))
